@@ -400,12 +400,10 @@ theorem addNow_dropOffsets (reg : Registry) (st : Store) (d : UDef) (h : d.elems
     addNow reg st (dropOffsets d) = addNow reg st d := by
   have h1 : (d.elems.map dropOffset).any elemOffsetBad = false := by
     rw [List.any_map]; exact List.any_eq_false.mpr (fun e _ => by simp [dropOffset, elemOffsetBad])
-  have h2 : refsResolve reg st (dropOffsets d) = refsResolve reg st d := by
-    simp [refsResolve, dropOffsets, List.all_map, Function.comp_def, dropOffset]
+  have h2 : refsKnown reg st.id (d.elems.map dropOffset) = refsKnown reg st.id d.elems := by
+    simp [refsKnown, List.all_map, Function.comp_def, dropOffset]
   unfold addNow
-  rw [h2]
-  simp only [dropOffsets, h1, h, addUnit, defMeaning_dropOffsets st.id d.elems h]
-  rfl
+  simp only [dropOffsets, h1, h, addUnit, h2, defMeaning_dropOffsets st.id d.elems h]
 
 theorem loopFuel_dropOffsets : ∀ (fuel : Nat) (reg : Registry) (st : Store) (dq : List UDef) (it : Nat),
     (∀ d ∈ dq, d.elems.any elemOffsetBad = false) →
